@@ -70,6 +70,32 @@ def as_nb(x):
     import nbformat
     return nbformat.from_dict(copy.deepcopy(x))
 
+def file_leg(a, b):
+    """nbdiff --out d.json a.ipynb b.ipynb ; nbpatch -o out.ipynb a.ipynb d.json ; read out.ipynb back"""
+    import tempfile, shutil, os, io, contextlib, nbformat
+    import nbdime.nbdiffapp, nbdime.nbpatchapp
+    d = tempfile.mkdtemp(prefix='nbv_file_')
+    try:
+        pa, pb, pd, po = [os.path.join(d, n) for n in ('a.ipynb', 'b.ipynb', 'd.json', 'out.ipynb')]
+        for p, nb in ((pa, a), (pb, b)):
+            with io.open(p, 'w', encoding='utf8') as f:
+                json.dump(nb, f)
+        buf = io.StringIO()
+        with contextlib.redirect_stdout(buf):
+            rc1 = nbdime.nbdiffapp.main([pa, pb, '--out', pd])
+            rc2 = nbdime.nbpatchapp.main([pa, pd, '-o', po]) if rc1 == 0 else None
+        if rc1 != 0 or rc2 != 0:
+            return {'err': 'ExitStatus', 'msg': 'nbdiff=%r nbpatch=%r %s' % (rc1, rc2, buf.getvalue()[-300:])}
+        with io.open(po, encoding='utf8') as f:
+            raw = json.load(f)
+        # sources/text may be stored as lists of lines on disk: normalise like nbformat.read does
+        out = clean(nbformat.from_dict(nbformat.reads(json.dumps(raw), as_version=4)))
+        return {'ok': out}
+    except Exception as e:
+        return exc_info(e)
+    finally:
+        shutil.rmtree(d, ignore_errors=True)
+
 def run_task(t):
     import nbdime
     from nbdime.diff_utils import to_clean_dicts, to_diffentry_dicts
@@ -103,7 +129,10 @@ def run_task(t):
             pr = {'ok': p}
         except Exception as e:
             pr = exc_info(e)
-        return {'ok': dj, 'patched': pr, 'oracles': orc}
+        out = {'ok': dj, 'patched': pr, 'oracles': orc}
+        if t.get('files'):
+            out['file'] = file_leg(t['a'], t['b'])
+        return out
     raise ValueError('unknown op ' + op)
 
 def main():
